@@ -94,7 +94,7 @@ def gen_cases(ctx, n, smax, cmax):
 
 def run(ctx):
     ctx.check_theorems()
-    ctx.check_generated(['eval', 'crop', 'k', 'kelev', 'klog', 'kcrop', 'ksrceval', 'dcommon'])
+    ctx.check_generated(['eval', 'crop', 'k', 'kelev', 'klog', 'kcrop', 'ksrceval', 'dcommon', 'kcalls', 'kups'])
     rng = ctx.rng
     # ---------------- (K): model vs implementation on the same inputs ----------------
     cases = gen_cases(ctx, ctx.n(36, 300), 12, 4)
